@@ -344,7 +344,7 @@ def run_shard(ctx):
     stats = {}
     k = 0
     with common.Scratch('vf-c14-') as tmp:
-        n = 220 if ctx.quick else 5000
+        n = 220 if ctx.quick else 2500
         for j in range(n):
             rng = ctx.rng('h', j)
             if ctx.quick:
